@@ -28,6 +28,11 @@ from bitcoinlib.keys import Signature, Key
 _logger = logging.getLogger(__name__)
 
 
+OPCODES_ALWAYS_INVALID = [
+    op.op_verif, op.op_vernotif, op.op_cat, op.op_substr, op.op_left, op.op_right, op.op_invert, op.op_and, op.op_or,
+    op.op_xor, op.op_2mul, op.op_2div, op.op_mul, op.op_div, op.op_mod, op.op_lshift, op.op_rshift]
+
+
 class ScriptError(Exception):
     """
     Handle Key class Exceptions
@@ -716,6 +721,10 @@ class Script(object):
                 commands += c
             else:
                 commands.append(c)
+        # Disabled opcodes and OP_VERIF / OP_VERNOTIF invalidate a script wherever they appear, also in a branch
+        # which is not executed
+        if [c for c in commands if isinstance(c, int) and c in OPCODES_ALWAYS_INVALID]:
+            return False
         while len(commands):
             command = commands.pop(0)
             if trace:
